@@ -144,4 +144,5 @@ pub(crate) mod verif_reexport {
     pub use super::direct::parse_direct_content;
     pub use super::header::parse_header;
     pub use super::jpeg::parse_jpeg_content;
+    pub use super::reader::{ByteReader, Cursor, read_u32_array};
 }
